@@ -3,6 +3,7 @@ module verifsim
 go 1.25.7
 
 require (
+	github.com/anishathalye/porcupine v1.3.0
 	github.com/ipfs/go-block-format v0.2.4
 	github.com/ipfs/go-cid v0.6.2
 	github.com/ipfs/go-graphsync v0.0.0
@@ -14,6 +15,7 @@ require (
 )
 
 require (
+	github.com/anishathalye/porcupine v1.3.0
 	github.com/cespare/xxhash/v2 v2.3.0 // indirect
 	github.com/decred/dcrd/dcrec/secp256k1/v4 v4.4.1 // indirect
 	github.com/go-logr/logr v1.4.3 // indirect
